@@ -780,6 +780,8 @@ def run(ck):
         rec = {"engine": "conc", "kind": "functional", "op": op, "build": "tsan" if res["tsan"] else "plain"}
         if op == "planner":
             rec["planner"] = res["op"].split()[1]
+            # a run that died / hung (no result line) vs a result the path oracle rejects
+            rec["class"] = "no-output" if what.startswith("no output") or what.startswith("harness exited") else "oracle"
         ck.report(rec, script=res["script"], expected="spec oracle of op `%s` (see judge_surface / judge_path)" % op,
                   observed={"result_line": res["line"], "what": what, "stderr_tail": res["err"][-1500:]}, engine="conc")
         ck.log("oracle failure (%s): %s" % (res["op"][:80], what[:300]))
